@@ -292,15 +292,171 @@ def _is_return_tail(stmts, k):
     return b.value
 
 
-class PreTree(object):
-    """The pre-ControlFlow tree of the top-level function as an annotated model program."""
+def _return_try(s):
+    """`try: <dr> = True; <rv> = E  except: <dr> = False; raise` (what the return pass makes of `return E`) -> (a, b):
+    the two assignments.  The handler only resets `do_return` on the way out of the function."""
+    if not isinstance(s, ast.Try) or len(s.body) != 2 or s.orelse or s.finalbody or len(s.handlers) != 1 \
+            or s.handlers[0].type is not None:
+        return None
+    a, b = s.body
+    h = s.handlers[0].body
+    if not (isinstance(a, ast.Assign) and isinstance(b, ast.Assign) and isinstance(a.targets[0], ast.Name)
+            and isinstance(b.targets[0], ast.Name) and isinstance(a.value, ast.Constant) and a.value.value is True
+            and a.targets[0].id.startswith('do_return') and b.targets[0].id.startswith('retval_')):
+        return None
+    if not (len(h) == 2 and isinstance(h[0], ast.Assign) and isinstance(h[0].targets[0], ast.Name)
+            and h[0].targets[0].id == a.targets[0].id and isinstance(h[0].value, ast.Constant) and h[0].value.value is False
+            and isinstance(h[1], ast.Raise) and h[1].exc is None):
+        return None
+    return a, b
 
-    def __init__(self, node, annos_of):
+
+GENERATED_FN_PREFIXES = ('if_body', 'else_body', 'loop_body', 'get_state', 'set_state', 'loop_test', 'extra_test')
+
+
+def own_statements(fn):
+    """Statements of `fn` at its own level (not inside nested defs / classes)."""
+    out, stack = [], list(fn.body)
+    while stack:
+        s = stack.pop()
+        out.append(s)
+        if isinstance(s, (ast.FunctionDef, ast.AsyncFunctionDef, ast.ClassDef)):
+            continue
+        for sub in ('body', 'orelse', 'finalbody'):
+            b = getattr(s, sub, None)
+            if isinstance(b, list):
+                stack.extend(x for x in b if isinstance(x, ast.stmt))
+        if isinstance(s, ast.Try):
+            for h in s.handlers:
+                stack.extend(h.body)
+    return out
+
+
+def user_defs(fn):
+    """`fn` and the user's nested defs in it, pre-order, with nesting flag — generated body/state functions are skipped
+    (but searched: a user's def may sit inside a generated body function)."""
+    out = []
+
+    def go(f, nested, user):
+        if user:
+            out.append((f, nested))
+        for s in own_statements(f):
+            if isinstance(s, ast.FunctionDef):
+                go(s, True, not s.name.startswith(GENERATED_FN_PREFIXES))
+    go(fn, False, True)
+    return out
+
+
+def wrapper_of(fn, nested):
+    """The model's `Wrapper` record of one generated function, read off the REAL final code, with every shape the model
+    of Func/Wrapper.lean assumes checked: one `with ag__.FunctionScope('<fn>', '<scope>', <options>) as <scope>:` holding
+    the whole body (after the docstring); shape (a) no `return` at the function's own level; shape (b)
+    `do_return = False; retval_ = ag__.UndefinedReturnValue(); ...; return <scope>.ret(retval_, do_return)` and no other
+    `return` outside the generated body functions; nested defs carry `@ag__.autograph_artifact` and call options."""
+    body = list(fn.body)
+    if body and isinstance(body[0], ast.Expr) and isinstance(body[0].value, ast.Constant):
+        body = body[1:]
+    if not (len(body) == 1 and isinstance(body[0], ast.With) and len(body[0].items) == 1):
+        raise ShapeMismatch('function %s: body is not a single with statement' % fn.name)
+    w = body[0]
+    call, var = w.items[0].context_expr, w.items[0].optional_vars
+    if not (isinstance(call, ast.Call) and _is_ag(call.func, 'FunctionScope') and len(call.args) == 3 and not call.keywords
+            and isinstance(var, ast.Name)):
+        raise ShapeMismatch('function %s: with item is not ag__.FunctionScope(name, scope, options) as scope' % fn.name)
+    a0, a1, opts = call.args
+    # the converted entity itself is renamed by the transpiler after the passes (`ag__<name>`); nested defs keep theirs
+    if not (isinstance(a0, ast.Constant) and (a0.value == fn.name or (not nested and fn.name == 'ag__' + str(a0.value)))):
+        raise ShapeMismatch('function %s: FunctionScope function name %s' % (fn.name, ast.unparse(a0)))
+    if not (isinstance(a1, ast.Constant) and a1.value == var.id and var.id.startswith('fscope')):
+        raise ShapeMismatch('function %s: scope name %s bound as %s' % (fn.name, ast.unparse(a1), var.id))
+    if _is_ag(opts, 'STD'):
+        ur = False
+    elif isinstance(opts, ast.Call) and _is_ag(opts.func, 'ConversionOptions'):
+        kws = dict((k.arg, k.value) for k in opts.keywords)
+        u = kws.get('user_requested')
+        if not (isinstance(u, ast.Constant) and isinstance(u.value, bool)):
+            raise ShapeMismatch('function %s: user_requested is not a literal' % fn.name)
+        ur = u.value
+    else:
+        raise ShapeMismatch('function %s: options %s' % (fn.name, ast.unparse(opts)[:60]))
+    decos = fn.decorator_list
+    if nested:
+        if not (decos and _is_ag(decos[-1], 'autograph_artifact')):
+            raise ShapeMismatch('nested function %s lacks @ag__.autograph_artifact' % fn.name)
+    elif decos:
+        raise ShapeMismatch('converted entity %s keeps decorators' % fn.name)
+    inner = list(w.body)
+    returns = [s for f, _ in [(fn, None)] for s in own_statements(f) if isinstance(s, ast.Return)]
+    # returns of generated state/test functions live in nested defs: not at own level
+    ret = None
+    if inner and isinstance(inner[-1], ast.Return):
+        r = inner[-1]
+        v = r.value
+        if not (len(inner) >= 3 and isinstance(v, ast.Call) and isinstance(v.func, ast.Attribute) and v.func.attr == 'ret'
+                and isinstance(v.func.value, ast.Name) and v.func.value.id == var.id and len(v.args) == 2
+                and all(isinstance(x, ast.Name) for x in v.args) and not v.keywords):
+            raise ShapeMismatch('function %s: final return is not <scope>.ret(retval_, do_return)' % fn.name)
+        rv, dr = v.args[0].id, v.args[1].id
+        i0, i1 = inner[0], inner[1]
+        if not (isinstance(i0, ast.Assign) and len(i0.targets) == 1 and isinstance(i0.targets[0], ast.Name) and i0.targets[0].id == dr
+                and isinstance(i0.value, ast.Constant) and i0.value.value is False):
+            raise ShapeMismatch('function %s: first statement is not %s = False' % (fn.name, dr))
+        if not (isinstance(i1, ast.Assign) and len(i1.targets) == 1 and isinstance(i1.targets[0], ast.Name) and i1.targets[0].id == rv
+                and isinstance(i1.value, ast.Call) and _is_ag(i1.value.func, 'UndefinedReturnValue') and not i1.value.args):
+            raise ShapeMismatch('function %s: second statement is not %s = ag__.UndefinedReturnValue()' % (fn.name, rv))
+        if not (dr.startswith('do_return') and rv.startswith('retval_')):
+            raise ShapeMismatch('function %s: names of the return variables' % fn.name)
+        if returns != [r]:
+            raise ShapeMismatch('function %s: a return statement besides the final one is left' % fn.name)
+        ret = [dr, rv]
+        inner = inner[2:-1]
+    elif returns:
+        raise ShapeMismatch('function %s: a return statement is left in a body that does not end in <scope>.ret' % fn.name)
+    return {'name': a0.value, 'scope': var.id, 'ur': ur, 'ret': ret, 'inner': inner, 'nested': nested}
+
+
+def source_wrapper_facts(source_fn):
+    """What the model predicts from the SOURCE: per user def (pre-order) (name, nested, has a `return` of its own)."""
+    out = []
+    for f, nested in user_defs(source_fn):
+        out.append((f.name, nested, any(isinstance(s, ast.Return) for s in own_statements(f))))
+    return out
+
+
+def wrapper_shape_problems(source_fn, final_fn):
+    """Compare the prediction with the wrappers found in the real final code; list of problems (empty = corresponds)."""
+    want = source_wrapper_facts(source_fn)
+    try:
+        got = [wrapper_of(f, nested) for f, nested in user_defs(final_fn)]
+    except ShapeMismatch as e:
+        return [str(e)]
+    probs = []
+    if [(w['name'], w['nested']) for w in got] != [(n, ne) for n, ne, _ in want]:
+        return ['functions in the final code %r, in the source %r' % ([(w['name'], w['nested']) for w in got], [(n, ne) for n, ne, _ in want])]
+    for w, (n, ne, hr) in zip(got, want):
+        if (w['ret'] is not None) != hr:
+            probs.append('function %s: source has %s return, generated shape is %s' % (n, 'a' if hr else 'no', 'b' if w['ret'] else 'a'))
+        if w['ur'] != (not ne):
+            probs.append('function %s: user_requested=%r for a %s function' % (n, w['ur'], 'nested' if ne else 'top-level'))
+    scopes = [w['scope'] for w in got]
+    if len(set(scopes)) != len(scopes):
+        probs.append('scope names are not distinct: %r' % scopes)
+    return probs
+
+
+class PreTree(object):
+    """The pre-ControlFlow tree of the top-level function as an annotated model program.
+    wrapper=True: the return protocol is kept (`do_return = False; retval_ = None; ...; return retval_`, every lowered
+    `return E` as `do_return = True; retval_ = E`) — the `Lowered.prog` of Func/Wrapper.lean; otherwise the trailing lowered
+    return is read back as `return E`."""
+
+    def __init__(self, node, annos_of, wrapper=False):
         """node: the ast.FunctionDef the pass received (re-built from the snapshot), annos_of(node) -> dict."""
         self.annos_of = annos_of
         self.params = [a.arg for a in node.args.args]
         self.n_compound = 0
-        self.block = self.conv_block(_fscope_body(node), [])
+        self.wrapper = wrapper
+        self.block = self.conv_block(_fscope_body(node), [], top=True)
 
     def info(self, s, nxt_in):
         an = self.annos_of(s)
@@ -312,11 +468,36 @@ class PreTree(object):
     def live_in(self, s):
         return simple_names(self.annos_of(s).get('LIVE_VARS_IN', []))
 
-    def conv_block(self, stmts, cont):
+    def conv_block(self, stmts, cont, top=False):
         out = []
         k = 0
         while k < len(stmts):
             s = stmts[k]
+            if self.wrapper:
+                nxt = self.live_in(stmts[k + 1]) if k + 1 < len(stmts) else cont
+                rt = _return_try(s)
+                if rt is not None:
+                    a, b = rt
+                    ia = self.info(a, self.live_in(b))
+                    ib = self.info(b, nxt)
+                    ib['out'] = list(nxt)
+                    ia['out'] = list(ib['in'])
+                    out.append(['assign', ia, a.targets[0].id, tx_expr(a.value)])
+                    out.append(['assign', ib, b.targets[0].id, tx_expr(b.value)])
+                    k += 1
+                    continue
+                if isinstance(s, ast.Return):
+                    v = s.value
+                    if not (top and k + 1 == len(stmts) and isinstance(v, ast.Call) and isinstance(v.func, ast.Attribute)
+                            and v.func.attr == 'ret' and len(v.args) == 2 and isinstance(v.args[0], ast.Name)):
+                        raise Unsupported('return outside the protocol')
+                    inf = self.info(s, [])
+                    inf['out'] = []
+                    out.append(['ret', inf, ['v', v.args[0].id]])
+                    break
+                out.append(self.conv_stmt(s, nxt))
+                k += 1
+                continue
             tail = _is_return_tail(stmts, k)
             if tail is not None:
                 inf = self.info(s, [])
@@ -395,8 +576,11 @@ def _decls(fn):
 
 
 class FinalTree(object):
-    def __init__(self, node):
-        self.block = self.parse_block(_fscope_body(node))
+    def __init__(self, node, inner=None):
+        """inner: the statements between the return-protocol initialisation and the final `return <scope>.ret(...)`
+        (`wrapper_of(node)['inner']`) — every lowered `return E` is then read as `do_return = True; retval_ = E`."""
+        self.wrapper = inner is not None
+        self.block = self.parse_block(_fscope_body(node) if inner is None else inner)
 
     def check_state_fns(self, defs, getter, setter, names):
         g, s = defs.get(getter), defs.get(setter)
@@ -435,7 +619,13 @@ class FinalTree(object):
                 defs[s.name] = s
                 k += 1
                 continue
-            tail = _is_return_tail(stmts, k)
+            rt = _return_try(s) if self.wrapper else None
+            if rt is not None:
+                for x in rt:
+                    out.append(['assign', x.targets[0].id, tx_expr(x.value)])
+                k += 1
+                continue
+            tail = None if self.wrapper else _is_return_tail(stmts, k)
             if tail is not None:
                 out.append(['ret', tx_expr(tail)])
                 break
